@@ -199,14 +199,17 @@ fn resp_text_code(i: &[u8]) -> IResult<&[u8], ResponseCode> {
 }
 
 fn capability(i: &[u8]) -> IResult<&[u8], Capability> {
-    alt((
-        map(tag_no_case(b"IMAP4rev1"), |_| Capability::Imap4rev1),
-        map(
-            map(preceded(tag_no_case(b"AUTH="), atom), Cow::Borrowed),
-            Capability::Auth,
-        ),
-        map(map(atom, Cow::Borrowed), Capability::Atom),
-    ))(i)
+    // Classify the complete atom, so that a longer atom which merely starts
+    // with a known name (`IMAP4rev1x`) is still an ordinary capability.
+    map(atom, |a| {
+        if a.eq_ignore_ascii_case("IMAP4rev1") {
+            Capability::Imap4rev1
+        } else if a.len() > 5 && a.as_bytes()[..5].eq_ignore_ascii_case(b"AUTH=") {
+            Capability::Auth(Cow::Borrowed(&a[5..]))
+        } else {
+            Capability::Atom(Cow::Borrowed(a))
+        }
+    })(i)
 }
 
 fn ensure_capabilities_contains_imap4rev(
